@@ -82,13 +82,18 @@ def extinction_cases(tier, seed0):
 def step_cases():
     for engine in ("euler", "tauleap"):
         for gtype in ("grid", "graph"):
-            for dt in (0.25, 0.1, 0.3):
-                for tmax in (0.0, 0.05, 0.25, 0.3, 0.5, 0.7, 1.0, 2.05):
-                    sc = lc.script_spec((engine, gtype), "a")
-                    sc["time_step"] = dt
-                    sc["t_max"] = tmax
-                    sc["policy"] = "no_sampling"
-                    yield {"sub": "steps", "engine": engine, "script": sc, "dt": dt, "t_max": tmax}
+            for scale in (1.0, 2.0 ** -40, 1e-10, 1e6):          # the step count must not depend on the time scale
+                for dt in (0.25, 0.1, 0.3):
+                    for tmax in (0.0, 0.05, 0.25, 0.3, 0.5, 0.7, 1.0, 2.05):
+                        sc = lc.script_spec((engine, gtype), "a")
+                        sc["time_step"] = dt * scale
+                        sc["t_max"] = tmax * scale
+                        sc["policy"] = "no_sampling"
+                        for r in sc["system"]["reactions"]:
+                            r["kf"], r["kr"] = r["kf"] / scale, r["kr"] / scale
+                        for sp_ in sc["system"]["species"]:
+                            sp_["D"] = sp_["D"] / scale
+                        yield {"sub": "steps", "engine": engine, "script": sc, "dt": dt * scale, "t_max": tmax * scale}
 
 
 def check_simple(case):
@@ -244,7 +249,7 @@ def build_jobs(tier, seed0, d1=None, d2=None, two=True):
         subs.append(("TLA+ model conformance NOT RUN: %s" % str(e)[:300], 0, 0))
     stc = list(step_cases())
     jobs += [("simple", c) for c in stc]
-    subs.append(("fixed-step completion count: 3 dt x 8 t_max x 2 engines x {grid,graph}", len(stc), len(stc)))
+    subs.append(("fixed-step completion count: 3 dt x 8 t_max x 4 time scales (1, 2^-40, 1e-10, 1e6) x 2 engines x {grid,graph}", len(stc), len(stc)))
     return jobs, subs
 
 
